@@ -32,7 +32,7 @@ pub enum ExprType { Nothing, Immediate(i32), Tmp(bool), Absolute(String, bool, i
 pub enum FlagsState { Unknown, A, X, Y }
 pub struct Error { pub e: u8 }
 // R6 shims: only the fields the block reads
-pub struct Function { pub inline: bool, pub interrupt: bool, pub bank: u32, pub code: Option<u8> }
+%(function_shim)s
 pub struct CompilerState { pub functions: HashMap<String, Function> }
 impl CompilerState { #[verifier::external_body] pub fn syntax_error(&self, message: &str, loc: usize) -> Error { unimplemented!() } }
 pub struct GeneratorState<'a> {
@@ -91,6 +91,8 @@ def build(repo):
     cuts = [blk]
     if "functions_call_tree" not in blk.text:
         raise Undecided("the block between the interrupt check and `self.flags = FlagsState::Unknown;` no longer contains the call-tree recording")
+    common.r19_filter(blk)
+    common.r14_map_or(blk)
     # R16
     m = re.search(r"if let Some\((\w+)\) = self\.functions_call_tree\.get_mut\((\w+)\) \{\s*\1\.push\(([^;]+?)\);\s*\} else \{", blk.text)
     if not m:
@@ -125,7 +127,10 @@ def build(repo):
         Ok(ExprType::Nothing)
     }
 """ % blk.text
-    text = common.PRELUDE + common.header_comment(NAME, cuts) + "verus! {\n" + common.DEC_SPECS + SPECS + fm.text() + \
+    fshim, fcut = common.plain_fields_shim(SourceFile(repo, "src/compile.rs"), "Function", "Function")
+    fshim = fshim.replace(" }", ", pub code: Option<u8> }")      # `code` is only tested with is_some()
+    specs = SPECS.replace("%(function_shim)s", fshim)
+    text = common.PRELUDE + common.header_comment(NAME, cuts) + "verus! {\n" + common.DEC_SPECS + specs + fm.text() + \
         "impl<'a> GeneratorState<'a> {\n" + STUBS + fn + "\n}\n" + common.CANARY + "\n} // verus!\n"
     u.text[None] = text
     u.rewrites = common.collect_rewrites(cuts) + ["R8: block cut between anchors `if f.interrupt {` and `self.flags = FlagsState::Unknown;`; free variables f, var, pos, fixed_bank became parameters"]
